@@ -295,7 +295,11 @@ impl<const K: usize> AffTree<K> {
         }
 
         for (label, node) in to_remove {
-            let _ = self.tree.try_remove_child(node, label);
+            // A decision must keep at least one branch, otherwise it would be mistaken for a
+            // terminal. The last branch stays in the tree, marked as infeasible.
+            if self.tree.contains(node) && self.tree.num_children(node) > 1 {
+                let _ = self.tree.try_remove_child(node, label);
+            }
         }
 
         counter
